@@ -21,7 +21,7 @@ func init() {
 		Thorough: thoroughC06,
 		Explanation: "Decides structural necessary conditions of 'a gossiping KV cluster converges and never crashes on bad input': (R1) malformed input is dropped before any state change: the update is enqueued / merged only when unmarshalling succeeded, the key is non-empty and the codec is known; every slice expression on the received buffer is dominated by a length check on that bound with no re-assignment of the buffer in between; merging requires a successful decode and type assertion; the store is written only when computing the new value succeeded; " +
 			"(R2) no explicit panic is reachable from the memberlist delegate's receive paths; (R3) every accepted change (error nil ∧ new version > 0) wakes the watchers and re-gossips exactly the merge's own change and version; pending key notifications are detached from the accumulator in the same critical section in which they are read; (R4) lock discipline: storeMu, watchersMu, notifMu, workersMu, messagesMu guard their fields and worker-channel sends happen under workersMu; " +
-			"(R5) delegate publication: delegateReady is set only after memberlist and the broadcast queues are assigned, and the delegate's data methods touch them only when delegateReady is true. (R6) a queued broadcast is invalidated only by one for the same key with a version not older, after a loop over the old content that can refuse; (R7) the ring's Mergeable implementations accept an incoming entry by the same last-writer-wins table for local and gossiped merges (analysis shared with C03.R1). (R8) the origin flag of a merge is casVersion > 0 and reaches Merge unchanged; (R9) LocalState encodes the stored value itself, tombstones included (both shared with C03/C04). Also: (R10) every queued update is consumed by its key's worker only; watcher lists are edited by append / slice-out only; (R11) a watcher's wake-up is consumed only by the select that reads the value next (no notification is dropped after the read); (R12) token conflicts are resolved by a symmetric rule of the two holders, so replicas holding the same entries agree on ownership whatever their map iteration order (shared with C05.R3). NOT decided: convergence itself (liveness over all gossip schedules), absence of implicit runtime panics in decoders.",
+			"(R5) delegate publication: delegateReady is set only after memberlist and the broadcast queues are assigned, and the delegate's data methods touch them only when delegateReady is true. (R6) a queued broadcast is invalidated only by one for the same key with a version not older, after a loop over the old content that can refuse; (R7) the ring's Mergeable implementations accept an incoming entry by the same last-writer-wins table for local and gossiped merges (analysis shared with C03.R1). (R8) the origin flag of a merge is casVersion > 0 and reaches Merge unchanged; (R9) LocalState encodes the stored value itself, tombstones included (both shared with C03/C04). Also: (R10) every queued update is consumed by its key's worker only; watcher lists are edited by append / slice-out only; (R11) a watcher's wake-up is consumed only by the select that reads the value next (no notification is dropped after the read); (R12) token conflicts are resolved by a symmetric rule of the two holders, so replicas holding the same entries agree on ownership whatever their map iteration order (shared with C05.R3). (R13) every protobuf message decoded on the receive paths starts empty — generated Unmarshal merges into its receiver, so a reused message is Reset in the same iteration. NOT decided: convergence itself (liveness over all gossip schedules), absence of implicit runtime panics in decoders.",
 	}
 }
 
